@@ -174,6 +174,21 @@ def run(tier, seed, replay):
         for back in range(0, len(text) + 1):
             for key in ("tab", "backtab"):
                 script += ["new"] + [tc.key_line(("char", ord(c))) for c in text] + ["left"] * back + [key, key, "char 120", key, "enter", "enter"]
+    # a line longer than the input field with the cursor walked across EVERY position, drawn after each key at three sizes
+    for size, text in (((76, 28), "abcdefghij" * 12), ((100, 40), "x ä€ y😀 " * 20), ((80, 24), "0123456789" * 9)):
+        script += ["new", "size %d %d" % size] + [tc.key_line(("char", ord(c))) for c in text] + ["left"] * (len(text) + 2) + ["right"] * 30 + ["home", "right", "right", "delete", "end"]
+    # successful `load`s (effect unspecified here, C06/C02 own it): the program pane shows file name and listing - every size must draw
+    fdir = os.path.join(vlib.WORK, "tui", "c17-files")
+    os.makedirs(fdir, exist_ok=True)
+    prog = "#! mrasm\n.ORG 4\nloop:\n  LDSP 0xEF ; comment ä€😀 with a rather long tail that will not fit into the program pane\n INC R0\n ST (0xFF), R0\n JR loop\n"
+    lsw = (110, 34) if tier == "quick" else (200, 60)
+    loads = []
+    for name in ["p", "blatt-3-zähler-mit-überlauf-v2", "€" * 30, "a-very-long-program-file-name-that-does-not-fit-into-the-side-bar", "😀", "ä" * 17 + "b", "x" * 11 + "é" * 9]:
+        fp = os.path.join(fdir, name + ".asm")
+        with open(fp, "w") as f:
+            f.write(prog)
+        script += ["new", "size 120 45"] + [tc.key_line(k) for k in tc.type_line("load " + fp)] + ["draw", "enter", "enter", "ctrl 119", "enter", "sweep %d %d" % lsw]
+        loads.append(len(script) - 6)
     sw = (120, 60) if tier == "quick" else (250, 100)
     for prep in (["new"], ["new"] + [tc.key_line(k) for k in [("char", ord(c)) for c in "ääää€€€€😀😀 long text " * 6] + ["left"] * 7],
                  ["new"] + [tc.key_line(k) for k in tc.type_line("bogus command")], ["new"] + [tc.key_line(k) for k in tc.type_line("show memory")]):
@@ -182,6 +197,11 @@ def run(tier, seed, replay):
     if len(recs3) != len(script):
         v.violation("tui:hook", "the robustness session ended early: %s" % proc3.stderr[-300:], {})
     sweeps = 0
+    for li in loads:
+        if li < len(recs3) and recs3[li]["key_panic"] is None and (recs3[li]["notif"] is not None or recs3[li]["m"]["ramsum"] == 0):
+            v.violation("tui:load", "`load PATH` of a readable, valid program file did not load it: notification %r" % (recs3[li]["notif"] or "")[:200],
+                        {"script": os.path.join(vlib.WORK, "tui", "c17-robust.script"), "line": recs3[li]["line"]})
+            break
     for rec in recs3:
         for kind in ("key_panic", "draw_panic"):
             if rec[kind] is not None and ("tui:robust:" + kind) not in seen:
@@ -202,7 +222,7 @@ def run(tier, seed, replay):
                 "Home/End, Backspace/Delete) with EditorOk; each typed into the real session (real handle_event, real Interface drawn after every key) and the "
                 "editor state compared; command lines (all commands, three radices, case / spacing variants, values around 255/256, trailing garbage, "
                 "malformed lines) submitted to the real session and validated by TraceTui incl. the machine effect; random key streams at 8 terminal sizes and "
-                "a sweep over all sizes for 4 representative states" % K,
+                "a sweep over all sizes for 4 representative states and for 7 sessions with a loaded program file (short / long / multi-byte names)" % K,
     }
     return v.finish("model_checking", cov, ["TLC", "Tui.tla as the reading of the documented commands (DESIGN Appendix D); float spellings beyond digits[.digits<=3], "
                                             "0X/0B, successful `load` are unspecified (no-crash only)", "TestBackend instead of a real terminal; the binary is the debug build (overflow checks on)"])
